@@ -528,6 +528,19 @@ def run(ck: Check):
         groups.append((dexid, tables_for(dexid), [ops], real_outputs((dexid, [ops]))))
     if groups:
         check_histories(ck, drv, groups, "rename-corpus", stats, nontrivial, max_fail=10)
+    # 0b. edges: the texts the model uses for a string / type index outside the pools are the
+    #     ones the real get_raw_string / get_string / get_type return there (they do not raise)
+    r = Real(build(gen_spec(rng))[0])
+    ns, nt = len(r.d.get_strings()), 10 ** 6
+    real_markers = []
+    for far in (ns, ns + 7, 10 ** 6):
+        try:
+            real_markers.append("%s %s %s" % (hx(r.cm.get_raw_string(far)), hx(r.cm.get_string(far)), hx(r.cm.get_type(nt + far))))
+        except Exception as e:  # noqa
+            real_markers.append("other:" + type(e).__name__)
+    m = drv.ask(["markers"])[0].split(" ")
+    ck.compare("invalid-index-markers", ["string/type index %d" % f for f in (ns, ns + 7, 10 ** 6)], real_markers,
+               ["%s %s %s" % (m[0], m[0], m[-1])] * 3)
     # 1. generated files
     nfiles = 160 if ck.quick else 2400
     per_file = 32 if ck.quick else 125
@@ -586,6 +599,10 @@ def run(ck: Check):
                           "setters is skipped, as it is for a plain DEX object")
     ck.assumptions.append("ProtoIdItem caches are filled while the file is parsed and never invalidated, so method descriptors "
                           "are constants of the file (checked by the correspondence on get_descriptor / get_kind METH)")
+    ck.notes.append("edges: string/type indices outside the pools answer the code's own marker texts (stream invalid-index-markers); "
+                    "operations addressed to a non-existing class_def/member/id item/constant are outside the model (Out.err, "
+                    "theorem out_of_range_is_err) and are never generated; every file of the correspondence satisfies Dex.wfFull "
+                    "(the driver answers not-wf otherwise)")
     ck.partial.append("descriptors, class names of members, superclass names after a class rename are compared with the model "
                       "(correspondence) but not specified by the dictionary: the code keeps stale FieldIdItem.class_idx_value / "
                       "type_idx_value and ClassDefItem.sname until the next reload")
